@@ -673,12 +673,23 @@ def run(rep):
     cells = [(p, k) for p in POSITIONS for k in KINDS]
     with cf.ThreadPoolExecutor(vlib.NCPU) as ex:
         matrix = list(ex.map(cell, cells))
-        fcases = pattern_flag_cases()
-        fres = list(ex.map(flagcase, fcases))
-        results = list(ex.map(accept, acc)) + list(ex.map(reject, rej)) + list(ex.map(total, tot)) + matrix + fres
+        results = list(ex.map(accept, acc)) + list(ex.map(reject, rej)) + list(ex.map(total, tot)) + matrix
     for r in results:
         if r['problems']:
             rep.finding(r.get('cls', 'unlisted'), {'kind': r['kind'], 'config': r['config'], 'what': r['problems'][:4]})
+    # 2b. pattern flags (package ce13): every combination of i, l, u and letters that are no flags, on the real binary
+    fcases = pattern_flag_cases()
+    with cf.ThreadPoolExecutor(vlib.NCPU) as ex:
+        fres = list(ex.map(flagcase, fcases))
+    for r in fres:
+        if r['problems']:
+            rep.finding('unlisted', {'kind': r['kind'], 'config': r['config'], 'what': r['problems'][:4]})
+    rep.coverage['pattern_flag_family'] = {
+        'cases': len(fcases), 'expected_rejected': len([c for c in fcases if c[2] == 'reject']), 'deviations': [r['kind'] for r in fres if r['problems']],
+        'rule': 'every string of <= 3 letters of i, l, u and 10 letters that are no flags after a body and after a header pattern of the reference '
+                'configuration: l together with u (any order, with i, repeated) and unknown letters are rejected as a whole (exit 1 / 75, file:line '
+                'diagnostic, nothing opened or changed), everything else is accepted silently by -n; the same strings go through the lexer and '
+                'parser correspondence'}
     # 3. the run from the configuration text: the same real run followed with the real parser's trees and with the parser model's
     W = world.WorldCheck(sc, tools)
     titems = text_specs()
@@ -724,12 +735,6 @@ def run(rep):
             'deviations': {m['kind']: m['problems'][0][:160] for m in matrix if m['problems']},
             'table': {m['kind'].split(':', 1)[1]: m['verdict'] for m in matrix},
         },
-        'pattern_flag_family': {'cases': len(fcases), 'expected_rejected': len([c for c in fcases if c[2] == 'reject']),
-                                'deviations': [r['kind'] for r in fres if r['problems']],
-                                'rule': 'every string of <= 3 letters of i, l, u and 10 letters that are no flags after a body and after a header '
-                                        'pattern of the reference configuration: l together with u (any order, with i, repeated) and unknown letters '
-                                        'are rejected as a whole (exit 1 / 75, file:line diagnostic, nothing opened or changed), everything else is '
-                                        'accepted silently by -n; the same strings go through the lexer and parser correspondence'},
         'correspondence_mismatches': len(corr_bad),
         'parser_requests': len(creqs), 'parser_accepted': conf_ok, 'parser_rejected': conf_err,
         'parser_distinct_diagnostic_lines': conf_lines, 'parser_inner_nodes_compared': conf_nodes,
